@@ -38,6 +38,8 @@ def check(run):
         run.functions += 1
     _siblings(run, sm, forms)
     _stacked(run, prog)
+    from ..cachekey import check_caches
+    check_caches(run, [m for k, m in prog.modules.items() if k.startswith('cherab.tools.inversions')], 'C11-K')
 
 
 def _sart(run, mod, fn, constrained):
